@@ -66,6 +66,20 @@ Definition k_children : text := [99; 104; 105; 108; 100; 114; 101; 110].
 Definition jv_of_did (d : did) : jv :=
   match d with DInt z => JInt z | DStr s => JStr s end.
 
+(* Results are [inl value] or [inr error-class] with the classes of
+   harness/common.py err_class: 1 UniqueConstraintError, 4 KeyError,
+   7 TypeError, 8 other.                                                  *)
+Definition res (X : Type) := (X + Z)%type.
+Definition E_UNIQUE : Z := 1.
+Definition E_KEY : Z := 4.
+Definition E_TYPE : Z := 7.
+Definition E_CRASH : Z := 8.
+
+(* Unhashable data objects (dict, list, non-frozen dataclass; documented use:
+   with an explicit data_id or a calc_data_id hook).  CPython's hash() never
+   returns -1, so [i_hash = -1] stands for "hash(data) raises TypeError". *)
+Definition unhashable (i : info) : bool := Z.eqb (i_hash i) (-1).
+
 (* ------------------------------------------------------------------ *)
 (* to_dict.  The serialisation mapper is a function of what it can read
    from the node (its [info]) and of the dict built so far; its value is the
@@ -74,9 +88,14 @@ Definition jv_of_did (d : did) : jv :=
 Definition smapper := info -> jdict -> jdict.
 Definition sm_none : smapper := fun _ res => res.
 
-(* hash(data)-derived default id *)
-Definition default_did (i : info) : did := DInt (i_hash i).
-Definition has_custom_did (i : info) : bool := negb (did_eqb (i_did i) (default_did i)).
+(* Tree.calc_data_id without a hook: hash(data) *)
+Definition default_did (i : info) : res did :=
+  if unhashable i then inr E_TYPE else inl (DInt (i_hash i)).
+
+(* [try: is_default = self._data_id == hash(self._data) / except TypeError:
+   is_default = False] (D30b repaired: unhashable data has no default id) *)
+Definition has_custom_did (i : info) : bool :=
+  unhashable i || negb (did_eqb (i_did i) (DInt (i_hash i))).
 
 Fixpoint to_dict (sm : smapper) (t : rt) : jv :=
   match t with
@@ -95,14 +114,7 @@ Fixpoint to_dict (sm : smapper) (t : rt) : jv :=
 Definition to_dict_list (sm : smapper) (f : forest) : list jv := map (to_dict sm) f.
 
 (* ------------------------------------------------------------------ *)
-(* from_dict.  Results are [inl value] or [inr error-class] with the classes
-   of harness/common.py err_class: 1 UniqueConstraintError, 4 KeyError,
-   7 TypeError, 8 other.                                                  *)
-Definition res (X : Type) := (X + Z)%type.
-Definition E_UNIQUE : Z := 1.
-Definition E_KEY : Z := 4.
-Definition E_TYPE : Z := 7.
-Definition E_CRASH : Z := 8.
+(* from_dict. *)
 
 (* Python truthiness of a JSON value *)
 Definition truthy (v : jv) : bool :=
@@ -145,17 +157,18 @@ Fixpoint parse (j : jv) : pt :=
 
 (* the data object a deserialisation step yields for item.get("data"):
    without a mapper the raw value itself (KeyError when the key is missing,
-   TypeError later when it is unhashable); with a mapper whatever the mapper
-   builds from it.  Both are instances of [dd].                           *)
+   an unhashable value is a data object with [i_hash = -1]); with a mapper
+   whatever the mapper builds from it.  Both are instances of [dd].       *)
 Definition dmapper := option jv -> res info.
 
 Definition dd_raw (raw : jv -> res info) : dmapper :=
   fun o => match o with None => inr E_KEY | Some v => raw v end.
 
-(* data_id=item.get("data_id"): None -> tree.calc_data_id(data) *)
-Definition did_for (calc : info -> did) (o : option jv) (i : info) : res did :=
+(* data_id=item.get("data_id"): None -> tree.calc_data_id(data), which raises
+   for unhashable data (or when the hook raises) *)
+Definition did_for (calc : info -> res did) (o : option jv) (i : info) : res did :=
   match o with
-  | None | Some JNull => inl (calc i)
+  | None | Some JNull => calc i
   | Some (JInt z) => inl (DInt z)
   | Some (JStr s) => inl (DStr s)
   | Some (JBool b) => inl (DInt (if b then 1 else 0))
@@ -167,7 +180,7 @@ Definition mk_info (i : info) (d : did) : info :=
 
 Section FromDict.
   Variable dd : dmapper.
-  Variable calc : info -> did.
+  Variable calc : info -> res did.
 
   (* one loop iteration of Node.from_dict for item [p]; [seen] = data_ids of
      the children appended to the same parent so far (Tree._register refuses a
@@ -245,7 +258,7 @@ Fixpoint renum_f (n : nat) (f : forest) {struct f} : forest * nat :=
 
 (* Tree.from_dict(obj, mapper): a new Tree (default calc_data_id = hash), its
    system root runs Node.from_dict.  [next] = number of nodes allocated before. *)
-Definition from_dict (dd : dmapper) (calc : info -> did) (next : nat) (obj : list jv) : res forest :=
+Definition from_dict (dd : dmapper) (calc : info -> res did) (next : nat) (obj : list jv) : res forest :=
   match fd_loop dd calc (map parse obj) [] with
   | inr e => inr e
   | inl f => inl (fst (renum_f next f))
@@ -265,7 +278,7 @@ Fixpoint set_ch (target : nat) (new : list rt) (t : rt) : rt :=
   | T id i ch => if Nat.eqb id target then T id i new else T id i (map (set_ch target new) ch)
   end.
 
-Definition node_from_dict (dd : dmapper) (calc : info -> did) (next : nat)
+Definition node_from_dict (dd : dmapper) (calc : info -> res did) (next : nat)
            (f : forest) (target : nat) (obj : list jv) : res forest :=
   match find_node target f with
   | None => inr E_CRASH
